@@ -19,7 +19,7 @@ CFG = P(
     ],
 )
 TEXT = {
-    "text": "Lean 4 theorems over ALL crash points (before/after every call and inside every write, un-synced content arbitrary: every prefix, zeros, stale bytes) of the save protocols modelled over Spec/Fs: temp+fsync+rename leaves every loader-visible file byte-for-byte old or new (atomic_replace_crash_safe), for save_index with every outcome of its three attempts (save_index_crash_safe), for save_all bucket by bucket (save_all_per_bucket_crash_safe), ResidencyDb::save, DiskCache::write_file (keys whose temp name is not an entry name) and the repaired LRU checkpoint, where the loader (highest generation, MD5-checked, no fallback) returns the old or the new table at every crash point (lru_checkpoint_crash_safe) while the pinned in-place checkpoint is refuted (lru_checkpoint_pinned_counter; fixed in /repo); temporary names are never loader-visible names (idx_tmp_not_index_name, lru_tmp_not_generation_name). The journal and two DiskCache key shapes are refuted by kernel-checked witnesses (known findings). The protocol itself is OBSERVED: every save runs in a worker process under strace and the canonical syscall trace must equal the model's trace; from the observed trace every crash state (64-byte cuts, as-written/dropped/zeros/stale) is materialised and the real loaders (IndexManager::load_all, ResidencyDb::load, LruManager::run_cycle, DiskCache::get, ExtractorCompactorBackup::load) must return old or new per object.",
+    "text": "Lean 4 theorems over ALL crash points (before/after every call and inside every write, un-synced content arbitrary: every prefix, zeros, stale bytes) of the save protocols modelled over Spec/Fs: temp+fsync+rename leaves every loader-visible file byte-for-byte old or new (atomic_replace_crash_safe), for save_index with every outcome of its three attempts (save_index_crash_safe), for save_all bucket by bucket (save_all_per_bucket_crash_safe), ResidencyDb::save, DiskCache::write_file (keys whose temp name is not an entry name) and the repaired LRU checkpoint, where the loader (highest generation, MD5-checked, no fallback) returns the old or the new table at every crash point (lru_checkpoint_crash_safe; lru_checkpoint_complete: the completed checkpoint is what loads next when no higher generation exists) while the pinned in-place checkpoint is refuted (lru_checkpoint_pinned_counter; fixed in /repo); temporary names are never loader-visible names (idx_tmp_not_index_name, lru_tmp_not_generation_name). The journal and two DiskCache key shapes are refuted by kernel-checked witnesses (known findings). The protocol itself is OBSERVED: every save runs in a worker process under strace and the canonical syscall trace must equal the model's trace; from the observed trace every crash state (64-byte cuts, as-written/dropped/zeros/stale) is materialised and the real loaders (IndexManager::load_all, ResidencyDb::load, LruManager::run_cycle, DiskCache::get, ExtractorCompactorBackup::load) must return old or new per object.",
     "design_ref": "DESIGN.md §6 C06, §3",
     "note": "Partial by design: crash semantics of the kernel are an assumption of Spec/Fs; contents/parsers are parameters; journal and DiskCache temp-name aliasing are recorded findings; LRU checkpoint repaired in /repo (1b2b74f).",
     "technique": "Lean 4 proof (crash relation over syscall traces, case analysis over all cuts, frame lemmas, induction over buckets/attempts) + strace-observed protocol correspondence + exhaustive crash-state materialisation under the real loaders",
